@@ -107,6 +107,9 @@ class Term(qcore.Query):
             return 0
 
         field = ixreader.schema[fieldname]
+        if field.format is None:
+            # The field is not indexed
+            return 0
         try:
             text = field.to_bytes(self.text)
         except ValueError:
@@ -193,11 +196,14 @@ class MultiTerm(qcore.Query):
     def _existing(self, ixreader):
         # The terms this query expands to; none if the field does not exist
         # or its type cannot represent the query text
+        from whoosh.reading import TermNotFound
+
         if self.field() not in ixreader.schema:
             return []
         try:
             return list(self._btexts(ixreader))
-        except ValueError:
+        except (ValueError, TermNotFound):
+            # TermNotFound: the field is not indexed (e.g. STORED)
             return []
 
     def estimate_size(self, ixreader):
